@@ -190,6 +190,18 @@ PROPS = {
         "components_real": ["helpers::transport::stream::{input::{BufDeque, RecordsStream, LengthDelimitedStream}, buffered::BufferedBytesStream}"],
         "components_stubbed": ["network body -> harness plan stream (chunks, empty chunks, Pending, injected error)"],
     },
+    "C18": {
+        "level": "exploration",
+        "rule": "run = 3 helpers x {1,2,3} shards of real HelperApps; one client issues a seeded history of 3..16 calls over {new_query, inputs to one/all nodes, query_status, complete on one/all leaders, kill} addressed to "
+                "arbitrary nodes, optionally with one node rejecting its n-th prepare request (F6); query tasks (TestMultiply) run in the background under the seeded schedule; a reference state machine "
+                "(absent / awaiting inputs / running-maybe-finished / completed / unknown-after-failed-create) predicts the class of every answer; non-trivial iff >=1 multi-choice decision; distinct by (history shape, schedule digest)",
+        "scenarios": [
+            {"name": "c18_lifecycle", "quick": 12000, "thorough": 600000, "offset": 1, "chunk": 300, "run_timeout": 120},
+        ],
+        "expected_probes": ["ops_executed", "completions", "reject_fired"],
+        "components_real": ["query::{processor, state, completion, executor}, app::{HelperApp, request handlers}, helpers::transport::handler, query::runner::test_multiply, PRSS negotiation, Gateway, in-memory MPC rings + shard mesh with request handlers"],
+        "components_stubbed": ["report collector -> harness client task", "HTTP layer's clear-streams-after-complete/kill -> harness reset of the node's in-memory streams (as TestApp does)", "tokio task abort -> shuttle detach (a killed task keeps running)"],
+    },
     "C19": {
         "level": "exploration",
         "rule": "run = seeded (shards in {1,2,3,5}, per-shard input lengths 0..200 incl. empty shards, picker in {table, all-to-one, round-robin, all-stay, skewed, PRSS}, "
@@ -224,6 +236,12 @@ NOT_APPLICABLE = {
 }
 
 MANIFEST_TEXT = {
+    "C18": {
+        "text": "Seeded exploration of query-lifecycle histories against a reference state machine, on real Processors/HelperApps wired through the repo's in-memory MPC rings and shard mesh, with real (cheap) query tasks running in the background under the controlled scheduler. Judged: an invalid request is refused and later answers are consistent with an unchanged state; a failed creation leaves no entry on the node that executed it; results are handed out once and afterwards a new query can be created (also on sharded helpers); the leader's status lies between the minimum of its shards' possible statuses; no call sequence whose tasks return makes a helper panic or the client hang. Two genuine defects were repaired (fix: c063277, 9a5b724); one (residue after a failed create -> peer panics) is a known finding. Sampling, not proof.",
+        "design_ref": "DESIGN.md section 4, C18 and section 7",
+        "note": "single sequential client (background tasks are the concurrency); panics inside the in-memory transport's acknowledgement path and after shuttle's non-cancelling abort are stub artefacts and are counted, not judged; residue on OTHER nodes after a failed create is modelled as 'unknown' (the code documents the missing rollback)",
+        "technique": "deterministic simulation: seeded API-history + schedule search against an executable reference state machine",
+    },
     "C12": {
         "text": "The multi-party clauses are decided by simulation: (a) released bucket = exact + the three pairwise-generated draws modulo the output width, with the draws re-derived independently (twin world, same seed, same PRSS streams, the repo's sampler; signed arithmetic done by the oracle) at widths 8/16/32 and 32/256 buckets under seeded schedules; (b) dummy records: all helpers append the same number of rows, real rows untouched and first, every dummy a consistent sharing of a zero-value row, a forged count message rejected by the excluded helper. The pure clauses (smallest truncation point with outer mass <= delta, pmf proportional to exp(-epsilon|x-n|), constructor ranges) have no schedule or fault in them; they ride along as invariants evaluated on a seeded configuration grid (chi-square threshold at 6.5 sigma) and are reported separately. Three genuine defects found here were repaired (fix: fb48ada, 34434ae, d8792f3).",
         "design_ref": "DESIGN.md section 4, C12 and section 5",
